@@ -1,0 +1,32 @@
+//go:build verif
+
+package collect
+
+import "sync/atomic"
+
+// VerifHooks are installed by conformance-checking harnesses (build tag
+// "verif" only). Emit is called at the collector's linearization points with
+// the event name and alternating key/value pairs; Heap, when set, replaces the
+// runtime heap reading used by checkAlloc.
+type VerifHooks struct {
+	Emit func(event string, kv ...any)
+	Heap func() (uint64, bool)
+}
+
+var verifHooks atomic.Pointer[VerifHooks]
+
+// SetVerifHooks installs (or, with nil, removes) the hooks.
+func SetVerifHooks(h *VerifHooks) { verifHooks.Store(h) }
+
+func verifEmit(event string, kv ...any) {
+	if h := verifHooks.Load(); h != nil && h.Emit != nil {
+		h.Emit(event, kv...)
+	}
+}
+
+func verifHeapOverride() (uint64, bool) {
+	if h := verifHooks.Load(); h != nil && h.Heap != nil {
+		return h.Heap()
+	}
+	return 0, false
+}
